@@ -36,6 +36,14 @@ from .alg import Unmodelled
 # --------------------------------------------------------------------------------------------------------------------
 
 
+class TorchRuntimeError(RuntimeError):
+    """An error the real torch primitive raises for these operands (size mismatch, ...), raised by its model."""
+
+
+class TorchIndexError(IndexError):
+    """IndexError of the real torch primitive, raised by its model."""
+
+
 class Dim:
     __slots__ = ("name", "z")
 
@@ -980,7 +988,7 @@ def _bshape(shapes):
                     REP[cur.name] = 1
                     cur = d
                 else:
-                    raise RuntimeError("The size of tensor a (%s) must match the size of tensor b (%s)" % (cur, d))
+                    raise TorchRuntimeError("The size of tensor a (%s) must match the size of tensor b (%s)" % (cur, d))
         out.append(cur)
     return tuple(out)
 
@@ -1033,7 +1041,7 @@ def _binop(name, f):
         r = ewise((lambda x, y: f(x, to_E(alpha) * y)) if alpha != 1 else f, a, b)
         av = val_of(a)
         if r.ndim != av.ndim or not all(same_dim(p, q) for p, q in zip(r.shape, av.shape)):
-            raise RuntimeError("output with shape %s doesn't match the broadcast shape %s" % (av.shape, r.shape))
+            raise TorchRuntimeError("output with shape %s doesn't match the broadcast shape %s" % (av.shape, r.shape))
         return write(a, r, name + "_")
 
     @reg("__r%s__" % name)
@@ -1141,7 +1149,7 @@ def _clamp_i(a, min=None, max=None):
 def _contract(av, bv, ia, ib):
     """sum over av's axis ia and bv's axis ib (which must have equal size); other axes: av's then bv's."""
     if not same_dim(av.shape[ia], bv.shape[ib]):
-        raise RuntimeError("size mismatch in a contraction: %s vs %s" % (av.shape[ia], bv.shape[ib]))
+        raise TorchRuntimeError("size mismatch in a contraction: %s vs %s" % (av.shape[ia], bv.shape[ib]))
     k = fresh_ix(av.shape[ia])
     sa = av.shape[:ia] + av.shape[ia + 1:]
     sb = bv.shape[:ib] + bv.shape[ib + 1:]
@@ -1156,7 +1164,7 @@ def _contract(av, bv, ia, ib):
 def _matmul(a, b, out=None):
     av, bv = val_of(a), val_of(b)
     if av.ndim == 0 or bv.ndim == 0:
-        raise RuntimeError("both arguments to matmul need to be at least 1D")
+        raise TorchRuntimeError("both arguments to matmul need to be at least 1D")
     if bv.ndim <= 2 and av.ndim >= 1:
         # (..., n) @ (n,) ; (..., n) @ (n, m)
         r = _contract(av, bv, av.ndim - 1, 0)
@@ -1172,7 +1180,7 @@ def _matmul(a, b, out=None):
     bshape = _bshape([ba, bb])
     bix = tuple(fresh_ix(d) for d in bshape)
     if not same_dim(av.shape[-1], bv.shape[-2]):
-        raise RuntimeError("size mismatch in matmul")
+        raise TorchRuntimeError("size mismatch in matmul")
     k = fresh_ix(av.shape[-1])
     i, j = fresh_ix(av.shape[-2]), fresh_ix(bv.shape[-1])
 
@@ -1197,7 +1205,7 @@ def _linear(x, w, b=None):
 def _ger(a, b, out=None):
     av, bv = val_of(a), val_of(b)
     if av.ndim != 1 or bv.ndim != 1:
-        raise RuntimeError("outer: expected 1-D tensors")
+        raise TorchRuntimeError("outer: expected 1-D tensors")
     i, j = fresh_ix(av.shape[0]), fresh_ix(bv.shape[0])
     return _out(Val(av.shape + bv.shape, (i, j), av.at(i) * bv.at(j)), out, "ger")
 
@@ -1211,7 +1219,7 @@ def _einsum(eq, *ops):
     specs = lhs.split(",")
     vals = [val_of(o) for o in ops]
     if len(specs) != len(vals):
-        raise RuntimeError("einsum: operand count")
+        raise TorchRuntimeError("einsum: operand count")
     lab = {}            # label -> (dim, ix)
     ell = None          # ellipsis dims (shape, ix), broadcast
     per_op = []
@@ -1221,12 +1229,12 @@ def _einsum(eq, *ops):
             pre, post = s.split("...")
             ne = v.ndim - len(pre) - len(post)
             if ne < 0:
-                raise RuntimeError("einsum: too few dimensions")
+                raise TorchRuntimeError("einsum: too few dimensions")
             nell = max(nell, ne)
             per_op.append((pre, ne, post))
         else:
             if len(s) != v.ndim:
-                raise RuntimeError("einsum: subscripts do not match the operand's dimensions")
+                raise TorchRuntimeError("einsum: subscripts do not match the operand's dimensions")
             per_op.append((s, 0, ""))
     ellshapes = [v.shape[len(pre):len(pre) + ne] for (pre, ne, post), v in zip(per_op, vals) if ne or True]
     ellshape = _bshape([v.shape[len(pre):len(pre) + ne] for (pre, ne, post), v in zip(per_op, vals)]) if nell else ()
@@ -1243,7 +1251,7 @@ def _einsum(eq, *ops):
             else:
                 if l in lab:
                     if not same_dim(lab[l][0], d):
-                        raise RuntimeError("einsum: size mismatch for subscript %s" % l)
+                        raise TorchRuntimeError("einsum: size mismatch for subscript %s" % l)
                 else:
                     lab[l] = (d, fresh_ix(d))
                 its.append(lab[l][1])
@@ -1345,14 +1353,14 @@ def _select(t, d, c):
     c = int(c)
     if isinstance(n, int):
         if not -n <= c < n:
-            raise IndexError("index %d is out of bounds for dimension %d with size %d" % (c, d, n))
+            raise TorchIndexError("index %d is out of bounds for dimension %d with size %d" % (c, d, n))
         c %= n
     elif c < 0:
         raise Unmodelled("negative index into a dimension of symbolic size")
     elif c >= DIM_LB.get(n.name, 1):
         vc = astvc.VC.cur()
         if not vc.decide(n.z > c):
-            raise IndexError("index %d is out of bounds for dimension %d with size %s" % (c, d, n))
+            raise TorchIndexError("index %d is out of bounds for dimension %d with size %s" % (c, d, n))
     return _view(t, ("select", d, c))
 
 
@@ -1378,7 +1386,7 @@ def _transpose(t, d0, d1):
 def _t(t):
     n = val_of(t).ndim
     if n > 2:
-        raise RuntimeError("t() expects a tensor with <= 2 dimensions")
+        raise TorchRuntimeError("t() expects a tensor with <= 2 dimensions")
     return _permute(t, tuple(reversed(range(n))))
 
 
@@ -1457,17 +1465,17 @@ def _expand(t, *sizes):
     v = val_of(t)
     lead = len(sizes) - v.ndim
     if lead < 0:
-        raise RuntimeError("expand: fewer sizes than dimensions")
+        raise TorchRuntimeError("expand: fewer sizes than dimensions")
     shape = []
     for j, s in enumerate(sizes):
         if isinstance(s, int) and s == -1:
             if j < lead:
-                raise RuntimeError("expand: -1 not allowed in a leading, non-existing dimension")
+                raise TorchRuntimeError("expand: -1 not allowed in a leading, non-existing dimension")
             shape.append(v.shape[j - lead])
         else:
             d = to_dim(s)
             if j >= lead and not _is_one_static(v.shape[j - lead]) and not same_dim(v.shape[j - lead], d):
-                raise RuntimeError("expand: size mismatch")
+                raise TorchRuntimeError("expand: size mismatch")
             shape.append(d)
     return _view(t, ("expand", tuple(shape)))
 
@@ -1571,7 +1579,7 @@ def _setitem(t, key, value):
     # broadcast value to the destination's shape
     b = ewise(lambda x, y: y, new(dv), new(r))
     if b.ndim != dv.ndim:
-        raise RuntimeError("shape mismatch in item assignment")
+        raise TorchRuntimeError("shape mismatch in item assignment")
     write(dst, b, "__setitem__")
     return None
 
@@ -1587,14 +1595,14 @@ def _cat(ts, dim=0, *, out=None):
     sizes = []
     for v in vals:
         if v.ndim != n:
-            raise RuntimeError("cat: tensors must have the same number of dimensions")
+            raise TorchRuntimeError("cat: tensors must have the same number of dimensions")
         d = rep(v.shape[dim])
         if not isinstance(d, int):
             raise Unmodelled("concatenation along a dimension of symbolic size")
         sizes.append(d)
         for ax in range(n):
             if ax != dim and not same_dim(v.shape[ax], vals[0].shape[ax]):
-                raise RuntimeError("cat: sizes of tensors must match except in dimension %d" % dim)
+                raise TorchRuntimeError("cat: sizes of tensors must match except in dimension %d" % dim)
     tot = sum(sizes)
     shape = vals[0].shape[:dim] + (tot,) + vals[0].shape[dim + 1:]
     ix = tuple(fresh_ix(d) for d in shape)
@@ -1716,7 +1724,7 @@ class Packed:
     def _b(self, o, f):
         if isinstance(o, Packed):
             if len(o.pieces) != len(self.pieces):
-                raise RuntimeError("packed vectors of different layouts")
+                raise TorchRuntimeError("packed vectors of different layouts")
             return Packed([f(a, b) for a, b in zip(self.pieces, o.pieces)])
         return Packed([f(a, o) for a in self.pieces])
 
@@ -1728,6 +1736,20 @@ class Packed:
     __rmul__ = __mul__
     def __truediv__(self, o): return self._b(o, lambda a, b: a / b)
     def __neg__(self): return Packed([-a for a in self.pieces])
+
+    @classmethod
+    def __torch_function__(cls, func, types, args=(), kwargs=None):
+        """torch.sub(packed, packed), torch.neg(packed), ... act piece by piece (what they do on the flat vector)."""
+        kwargs = kwargs or {}
+        name = getattr(func, "__name__", "")
+        if name not in ("add", "sub", "mul", "div", "true_divide", "neg", "negative", "clone", "detach"):
+            raise Unmodelled("torch.%s on a packed parameter vector" % name)
+        n = max(len(a.pieces) for a in args if isinstance(a, Packed))
+        out = []
+        for j in range(n):
+            out.append(func(*[(a.pieces[j] if isinstance(a, Packed) else a) for a in args], **kwargs))
+        return Packed(out)
+
     def __iter__(self): return iter(self.pieces)
     def __len__(self): return len(self.pieces)
 
@@ -1805,7 +1827,7 @@ def _item(t):
     body = v.body.subst({k: 0 for k in v.ix})
     for d in v.shape:
         if not _is_one(d):
-            raise RuntimeError("a Tensor with more than one element cannot be converted to Scalar")
+            raise TorchRuntimeError("a Tensor with more than one element cannot be converted to Scalar")
     return GScalar(body)
 
 
